@@ -336,6 +336,14 @@ pub fn gen_node(prop: &str, kind: &str, profile: u8, tier: Tier, rng: &mut Rng, 
             plan.set("window", rng.log_uniform(1, 14_400_000_000_000));
         }
     }
+    // "era": a moving-average history whose two halves lie more than i64::MAX nanoseconds apart (the first
+    // far on the negative side of the axis, the second far on the positive side): the distance between two
+    // consecutive stamps is then not representable although every stamp and every `stamp - window` is
+    let era = !huge && !near_max && !long_run && tg.grid == 0 && matches!(kind, "ma_f" | "ma_q") && rng.chance(0.03);
+    let mut era_jumped = false;
+    if era {
+        tg.t = -(1i64 << 62) - rng.range(0, 1_000_000_000_000);
+    }
     let mut tiny_dt = false;
     let ramp = if near_max { 0 } else { ramp };
     if !huge && !near_max && matches!(kind, "cpid" | "ewma_f" | "ewma_q") && rng.chance(0.17) {
@@ -446,6 +454,10 @@ pub fn gen_node(prop: &str, kind: &str, profile: u8, tier: Tier, rng: &mut Rng, 
                 let steps = rng.range(1, 4);
                 ramp_k += steps;
                 tg.t += steps * 1_000_000_000;
+                tg.t
+            } else if era && !era_jumped && have_sample && rng.chance(0.3) {
+                era_jumped = true;
+                tg.t = (1i64 << 62) + rng.range(0, 1_000_000_000);
                 tg.t
             } else {
                 tg.step(rng)
